@@ -8,7 +8,7 @@ undefined shifts, signed overflow, division by zero): C13, C14, C17, C18, C20.  
  (c) the checked wrappers with incompatible SYMBOLIC dimensions on header-only operands (data == NULL),
  (d) SSE2 leaf kernels at both 16-byte phases (views at word offset 1 and 2)."""
 BOUNDS = {
- "quick": "(a) ~45 scenarios from the C01/C02/C03/C04/C05/C06/C07/C08 grids at small shapes with bounds/pointer/shift/overflow checks; (b) 7 leak scenarios; (c) 19 wrappers x dimensions symbolic in [1,300]; (d) SSE2: add/combine on 577-column rows at view word offsets 1 and 2",
+ "quick": "(a) ~45 scenarios from the C01/C02/C03/C04/C05/C06/C07/C08 grids at small shapes with bounds/pointer/shift/overflow checks; (b) 7 leak scenarios; (c) 19 wrappers x dimensions symbolic in [1,300]; (d) SSE2 leaf kernels only in the thorough tier",
  "thorough": "more shapes in (a), SSE2 m4rm / row_add_offset",
 }
 OUTSIDE = "alignment traps inside libc; misaligned-vector faults are modelled as the library's own alignment assert()s plus CBMC's pointer checks (CBMC has no alignment trap); sizes beyond the grids"
@@ -64,11 +64,14 @@ def plan(tier, seed):
         S("leak-s%d" % sc, "c11.c", {"H_LEAK": None, "SCEN": sc}, leak=True, group="c11-leak", cbmc_flags=FS)
     # (c) wrappers with incompatible dimensions
     for w in range(19):
-        S("baddims-w%d" % w, "c11.c", {"H_BADDIMS": None, "WRAP": w, "WITNESS_DIE": None}, group="c11-baddims", timeout=600)
+        S("baddims-w%d" % w, "c11.c", {"H_BADDIMS": None, "WRAP": w, "WITNESS_DIE": None}, group="c11-baddims", timeout=600, unwind=2, unwindset={"sqrt": 40, "log2": 70},
+          remove_bodies=("_mzd_mul_even", "_mzd_sqr_even", "_mzd_addmul", "_mzd_addmul_even", "_mzd_addsqr_even", "_mzd_mul_m4rm", "_mzd_mul_naive", "_mzd_mul_va",
+                         "_mzd_trsm_lower_left", "_mzd_trsm_upper_left", "_mzd_trsm_upper_right", "_mzd_trsm_lower_right", "_mzd_add", "_mzd_solve_left", "_mzd_ple", "_mzd_pluq",
+                         "_mzd_pluq_solve_left", "_mzd_transpose") + (("mzd_transpose",) if w != 12 else ()))  # code behind the dimension checks is unreachable under the assumption; cut its loops (unwinding assertions there hold vacuously)
     # (d) SSE2 leaf kernels, both phases
     SSE_US = {"mzd_combine_even": 14, "mzd_combine_even_in_place": 14, "mzd_row_add_offset": 14, "_mzd_combine.*": 14}
-    for vo in (1, 2):
-        S("sse-add-2x577-o%d" % vo, "c08.c", {"H_ADD": None, "NR": 2, "NC": 577, "ALIAS": 1, "VIEWMASK": 7, "VOFF": vo, "VEXTRA": 70}, cfg="sse", timeout=2400, mem_gb=20, unwindset=SSE_US, group="c11-sse")
+    for vo in ((1, 2) if T else ()):   # 18 GB / > 5 min each (measured): thorough tier
+        S("sse-add-2x577-o%d" % vo, "c08.c", {"H_ADD": None, "NR": 2, "NC": 577, "ALIAS": 1, "VIEWMASK": 7, "VOFF": vo, "VEXTRA": 70}, cfg="sse", timeout=2400, mem_gb=28, unwindset=SSE_US, group="c11-sse")
     if T:
         for vo in (1, 2):
             S("sse-rowadd-3x577-o%d" % vo, "c13.c", {"H_ROWADD": None, "NR": 3, "NC": 577, "VIEWMASK": 4, "VOFF": vo, "VEXTRA": 70}, cfg="sse", timeout=2400, mem_gb=20, unwindset=SSE_US, group="c11-sse")
